@@ -4,6 +4,12 @@ coq/Properties/*.v, known_findings.json and seeded/*/meta.json."""
 import json, os, re, glob
 ROOT = os.path.dirname(os.path.dirname(os.path.abspath(__file__)))
 out = []
+# per-property as-built notes written by the package owners
+notes = sorted(glob.glob(os.path.join(ROOT, "design", "C*.md")))
+if notes:
+    out.append("### Per-property as-built notes (from /verif/design/Cxx.md)\n")
+    for f in notes:
+        out.append(open(f).read().rstrip() + "\n")
 out.append("### Theorems per property (from coq/Properties/Cxx.v; `_partial` / `_refuted` by name)\n")
 out.append("| Prop. | obligations | full | partial | refuted | examples |")
 out.append("|---|---|---|---|---|---|")
